@@ -118,6 +118,12 @@ def _unexpected_token(
     return UnexpectedToken('Unexpected "%s"' % token, position, source)
 
 
+def _nesting_too_deep(source: Union[str, bytes]) -> GraphQLSyntaxError:
+    if isinstance(source, bytes):
+        source = source.decode("utf8")
+    return GraphQLSyntaxError("Document is nested too deeply", 0, source)
+
+
 def parse(source: Union[str, bytes], **kwargs: Any) -> _ast.Document:
     """
     Parse a string as a GraphQL Document.
@@ -133,7 +139,10 @@ def parse(source: Union[str, bytes], **kwargs: Any) -> _ast.Document:
         `py_gql.lang.ast.Document`: Parsed document.
 
     """
-    return Parser(source, **kwargs).parse_document()
+    try:
+        return Parser(source, **kwargs).parse_document()
+    except RecursionError:
+        raise _nesting_too_deep(source)
 
 
 def parse_value(
@@ -164,7 +173,10 @@ def parse_value(
     """
     parser = Parser(source, **kwargs)
     parser.expect(SOF)
-    value = parser.parse_value_literal(False)
+    try:
+        value = parser.parse_value_literal(False)
+    except RecursionError:
+        raise _nesting_too_deep(source)
     parser.expect(EOF)
     return value
 
@@ -190,7 +202,10 @@ def parse_type(source: Union[str, bytes], **kwargs: Any) -> _ast.Type:
     """
     parser = Parser(source, **kwargs)
     parser.expect(SOF)
-    value = parser.parse_type_reference()
+    try:
+        value = parser.parse_type_reference()
+    except RecursionError:
+        raise _nesting_too_deep(source)
     parser.expect(EOF)
     return value
 
